@@ -102,6 +102,66 @@ def diag_guards(run, f, rule='R8.diag'):
         run.check(not bad, rule, f, st.test, '%s; the test differs on (onsite, x, z) = %s' % (what, bad[:3]))
 
 
+def pivot_update(run, f, rule='R8.pivot'):
+    """pauli_diagonalize1/2, operator trivial on the target qubit: the generator is the operator with its letter on the pivot
+    qubit i = front(g) replaced by another one, so that it anticommutes with the operator.  The statements that rewrite the two
+    slots of the pivot are interpreted (plain assignments one after the other, a tuple assignment at once) on X, Y and Z; each
+    must become a letter that anticommutes with it."""
+    from .. import oracle
+    n = 0
+    for st, ctx in walk(f.node):
+        if not (isinstance(st, ast.Assign) and isinstance(st.targets[0], ast.Name) and isinstance(st.value, ast.Call)
+                and norm(st.value.func) == 'front' and len(st.value.args) == 1 and isinstance(st.value.args[0], ast.Name)):
+            continue
+        i, g = st.targets[0].id, st.value.args[0].id
+        ups = []
+        for s2 in ctx.block[ctx.index + 1:]:
+            if not isinstance(s2, ast.Assign):
+                break
+            tg = s2.targets[0]
+            pairs = list(zip(tg.elts, s2.value.elts)) if isinstance(tg, ast.Tuple) and isinstance(s2.value, ast.Tuple) and len(tg.elts) == len(s2.value.elts) else [(tg, s2.value)]
+            group = []
+            for t, v in pairs:
+                if isinstance(t, ast.Subscript) and isinstance(t.value, ast.Name) and t.value.id == g:
+                    slot = {(2, 0): 'x', (2, 1): 'z'}.get(affine_in(t.slice, i))
+                    group.append((slot, v))
+                else:
+                    group = None
+                    break
+            if not group:
+                break
+            ups.append((s2, group))
+        n += 1
+        if not ups or any(slot is None for _, grp in ups for slot, _ in grp):
+            run.undecided(rule, f, st, 'the rewrite of the pivot letter after `%s = front(%s)` is not in a shape this rule reads' % (i, g))
+            continue
+        bad = None
+        try:
+            for x, z in ((1, 0), (1, 1), (0, 1)):
+                b = {'x': x, 'z': z}
+                for s2, grp in ups:
+                    def sub(nd, env, rec, b=b):
+                        if not (isinstance(nd.value, ast.Name) and nd.value.id == g):
+                            raise Undecidable('subscript ' + norm(nd))
+                        sl = {(2, 0): 'x', (2, 1): 'z'}.get(affine_in(nd.slice, i))
+                        if sl is None:
+                            raise Undecidable('slot ' + norm(nd))
+                        return b[sl]
+                    vals = [(slot, ev(v, {}, sub=sub)) for slot, v in grp]     # right-hand sides first (tuple assignment)
+                    for slot, val in vals:
+                        b[slot] = val
+                if b['x'] not in (0, 1) or b['z'] not in (0, 1) or oracle.site_acq(x, z, b['x'], b['z']) != 1:
+                    bad = ((x, z), (b['x'], b['z']))
+                    break
+        except Undecidable as e:
+            run.undecided(rule, f, st, str(e))
+            continue
+        run.check(bad is None, rule, f, ups[0][0], 'the pivot letter must be replaced by one that anticommutes with it (X->Y, Y->Z, Z->X or the reverse): '
+                  '(x, z) = %s becomes %s, which commutes with it, so the generator commutes with the operator and the rotation does nothing'
+                  % (bad if bad else ((), ())))
+    return n
+
+
 def check(run):
     repo = run.repo
     eff = K.effects_of(repo)
@@ -173,6 +233,8 @@ def check(run):
         if pkg == 'pyclifford' or True:
             diag_guards(run, repo.func(urel, 'pauli_diagonalize1'))
             diag_guards(run, repo.func(urel, 'pauli_diagonalize2'))
+        pivot_update(run, repo.func(urel, 'pauli_diagonalize1'))
+        pivot_update(run, repo.func(urel, 'pauli_diagonalize2'))
         diag_kernel(run, repo.func(urel, 'pauli_diagonalize1'), ['g1'])
         diag_kernel(run, repo.func(urel, 'pauli_diagonalize2'), ['g1', 'g2'])
         K.product_sites(run, repo.func(urel, 'pauli_diagonalize1'), floor=2)
@@ -226,6 +288,7 @@ def check(run):
     run.floor('R2.gate', 8)
     run.floor('R7.mirror', 10)
     run.floor('R8.diag', 12)
+    run.floor('R8.pivot', 4)
     run.floor('R11.indep', 4)
     run.floor('R10.sbrg', 4)
     run.floor('R13.sbrg', 3)
